@@ -4,6 +4,8 @@ HOOK_COMMITS = []
 ENGINES = [
     {"name": "vcore", "path": "/verif/mc/vcore", "serves_properties": ["*"],
      "kind_free_text": "parent/worker process pool, deterministic sliced enumeration, known-findings matcher, determinism gate (re-execution of each new violation), evidence + replay writer"},
+    {"name": "SCHED", "path": "/verif/mc/sched", "serves_properties": ["C35", "C36", "C37", "C38", "C39"],
+     "kind_free_text": "bounded-preemption (ICB) depth-first exploration of thread schedules of the real TurDB code compiled against a parking_lot shim over shuttle; schedules are choice vectors, replayed twice before a verdict is trusted"},
     {"name": "BYTES/INPUT", "path": "/verif/mc/checks/src/bin", "serves_properties": ["C27", "C30"],
      "kind_free_text": "bounded-exhaustive input enumeration of real codec functions on guard-paged buffers"},
 ]
@@ -22,5 +24,17 @@ CHECKS = {
         "technique": "bounded exhaustive input enumeration: every key-set shape (composition into equal-prefix runs) x every stored/gap probe against plain binary search",
         "text": "Leaf pages are built with the real LeafNodeMut API for every composition of n<=15 (thorough n<=20) keys into runs sharing a 4-byte prefix, in three key families (long keys, keys shorter than 4 bytes with zero-padded prefixes, high-bit prefixes), plus run families up to 400 keys; every stored key and every neighbouring gap key is probed through find_key and through both narrowing functions (AVX2 and scalar). Exhaustive over those shapes, so any batch-boundary or equal-prefix narrowing error is found; this is how the AVX2 defect fixed in 534a3d5 was found.",
         "note": "Oracle is slice::binary_search over the harness's own key list. The no-AVX2 dispatch cannot be forced on this CPU: the scalar narrowing function is checked directly instead. NEON path not reachable on x86_64.",
+    },
+    "C36": {
+        "bin": "c36", "kind": "sched", "engine": "SCHED", "level": "model_checking",
+        "technique": "stateless model checking of the real code: every thread schedule up to a preemption bound (iterative context bounding on shuttle's executor)",
+        "text": "The real PageLockManager is driven by 2-3 shuttle threads acquiring/releasing page read/write locks, table intent locks and multi-page write locks on 1-2 pages; every schedule with <=2 (thorough 3) preemptions is executed (scheduling points = every lock operation of the parking_lot shim and every atomic of page_locks.rs). An occupancy record inside each critical section decides mutual exclusion on every schedule, deadlocks/livelocks are reported by the executor, and the lock tables must be empty at quiescence. This reaches interleavings (release/cleanup racing re-acquisition) that the repository's timing-based thread tests never pin down.",
+        "note": "Sequentially consistent atomics; parking_lot replaced by a ~250-line shim over shuttle (mc/sched/shims); fairness of RwLock is shuttle's; more than 3 threads / preemptions above the bound not covered.",
+    },
+    "C39": {
+        "bin": "c39", "kind": "sched", "engine": "SCHED", "level": "model_checking",
+        "technique": "stateless model checking of the real code: every thread schedule up to a preemption bound (iterative context bounding on shuttle's executor)",
+        "text": "The real MemoryBudget (4 MiB limit) is driven by 2-3 shuttle threads allocating/releasing 64 KiB-3 MiB in the same and different pools; every schedule with <=4 (thorough 8) preemptions for 2 threads and <=2 (3) for 3 threads is executed, each atomic load/CAS of budget.rs being a scheduling point. At quiescence the sum of successful allocations is compared with the limit, every pool counter with a ledger of successful calls, and everything must return to zero.",
+        "note": "Sequentially consistent atomics (shuttle); sizes and pools from a small alphabet.",
     },
 }
